@@ -50,6 +50,8 @@ def snap(o, depth=0):
         return ('dict', [(repr(k), snap(v, depth + 1)) for k, v in o.items()])
     if isinstance(o, (list, tuple)):
         return (type(o).__name__, [snap(v, depth + 1) for v in o])
+    if isinstance(o, (set, frozenset)):
+        return (type(o).__name__, sorted(repr(snap(v, depth + 1)) for v in o))
     if isinstance(o, np.random.RandomState):
         return ('rs', seq.canon(o))
     if isinstance(o, (int, float, str, bool, type(None), np.floating, np.integer)):
@@ -315,6 +317,16 @@ def _vine(R, vtype):
     R.twice(f'vine:{vtype}.sample', v.sample, (2,), reseed=lambda: v.set_random_state(5))
     d = v.to_dict()
     R.twice(f'vine:{vtype}.from_dict', VineCopula.from_dict, (d,), compare=False)
+    # a model re-created from a dict does not keep writing into that dict
+    with warnings.catch_warnings():
+        warnings.simplefilter('ignore')
+        v3 = VineCopula(vtype)
+        v3.fit(df.copy())
+        d = v3.to_dict()                      # taken from a vine that has not sampled yet
+        loaded = VineCopula.from_dict(d)
+        R.twice(f'vine:{vtype}.from_dict(d).sample', loaded.sample, (3,), owned=(d,), reseed=lambda: loaded.set_random_state(5))
+        R.twice(f'vine:{vtype}.from_dict(d).get_likelihood', loaded.get_likelihood, (U.copy(),), owned=(d,))
+        R.twice(f'vine:{vtype}.from_dict(d).to_dict', loaded.to_dict, (), owned=(d,))
 
 
 def _optimize(R):
@@ -351,6 +363,22 @@ def _misc(R):
     import copulas.datasets as D
     for fn in ('sample_bivariate_age_income', 'sample_trivariate_xyz', 'sample_univariates'):
         R.twice(f'misc:datasets.{fn}', getattr(D, fn), (20, 7))
+    # a RandomState object handed over as seed is the caller's: it is read, never advanced (same answer the second time)
+    for fn in ('sample_bivariate_age_income', 'sample_trivariate_xyz', 'sample_univariate_bimodal', 'sample_univariates'):
+        rs = np.random.RandomState(11)
+        R.twice(f'misc:datasets.{fn}(seed=RandomState)', getattr(D, fn), (20, rs))
+    from copulas.multivariate import GaussianMultivariate
+    df, _ = tables.gaussian_copula_table((2, 'equi+', 'normal', (), 30, 'str'))
+    for label, make in (('uni:gaussian', lambda rs_: U.GaussianUnivariate(random_state=rs_)),
+                        ('gm:gaussian-class', lambda rs_: GaussianMultivariate(distribution=U.GaussianUnivariate,
+                                                                                random_state=rs_))):
+        rs = np.random.RandomState(12)
+        m = make(rs)
+        m.fit(df['b'].to_numpy() if label.startswith('uni') else df.copy())
+        R.twice(f'misc:{label}(random_state=RandomState).sample', m.sample, (4,), owned=(rs,), compare=False)
+        rs2 = np.random.RandomState(13)
+        R.twice(f'misc:{label}.set_random_state(RandomState)', m.set_random_state, (rs2,), compare=False)
+        R.twice(f'misc:{label}.sample after set_random_state(RandomState)', m.sample, (4,), owned=(rs2,), compare=False)
 
 
 # ------------------------------------------------------------------------------------------------
